@@ -25,8 +25,8 @@ PRELOAD = ['frame.geometry.geometry', 'frame.netlist.netlist', 'frame.die.die', 
            'tools.legalfloor.legalfloor', 'tools.force.fruchterman_reingold', 'tools.spectral.spectral',
            'tools.floorset_parser.floor_set_manager.strop', 'tools.floorset_parser.floor_set_manager.utils.utils',
            'tools.glbfloor.optimization', 'tools.netgen.netgen', 'numpy']
-RULE = ("all operation sequences of length <= 2 (quick) / <= 3 (thorough) over a 19-operation alphabet, each executed in a fresh interpreter forked from a pristine "
-        "(imports only) process; after each history every one of 15 probes is run in its own forked child and its canonical digest compared with the digest of the "
+RULE = ("all operation sequences of length <= 2 (quick) / <= 3 (thorough) over a 20-operation alphabet, each executed in a fresh interpreter forked from a pristine "
+        "(imports only) process; after each history every one of 18 probes is run in its own forked child and its canonical digest compared with the digest of the "
         "same probe forked from the pristine interpreter; and, for designs LOADED BEFORE the history (two netlists with near-miss orthogons, an allocation, a die), the answers of "
         "create_stogs / griddify / refine / split_refinable_regions asked after every history of length <= 1 (thorough: <= 2). states = distinct fingerprints of module-level mutable state reached; transitions = operations executed; "
         "traces validated = (history, probe) pairs compared.")
@@ -161,6 +161,19 @@ def op_legal(variant=1):
     with quiet():
         ml, al, xl, yl, wl, hl, hyper, og = lf.netlist_to_utils(n)
         model = lf.Model(ml, al, xl, yl, wl, hl, 8.0, 8.0, hyper, 2.0, og, 0.9, 0.3, 1.0, None)
+        lf.turn_off_flag(1)
+    return model
+
+
+def op_legal_small():
+    """the legaliser model of a design written in small units (die 0.05 x 0.05: within a factor 1000 of the probes' 8 x 8)"""
+    import tools.legalfloor.legalfloor as lf
+    from frame.netlist.netlist import Netlist
+    n = Netlist({'Modules': {'M0': {'area': 1e-4, 'rectangles': [[0.01, 0.01, 0.01, 0.01]]},
+                             'M1': {'hard': True, 'rectangles': [[0.03, 0.02, 0.01, 0.005]]}}, 'Nets': [['M0', 'M1']]})
+    with quiet():
+        ml, al, xl, yl, wl, hl, hyper, og = lf.netlist_to_utils(n)
+        model = lf.Model(ml, al, xl, yl, wl, hl, 0.05, 0.05, hyper, 2.0, og, 0.9, 0.3, 1.0, None)
         lf.turn_off_flag(1)
     return model
 
@@ -325,6 +338,7 @@ OPS = {
     'initial_alloc': lambda: op_initial_alloc(1.0, 1),
     'pb': lambda: op_pb(1),
     'legal': lambda: op_legal(1),
+    'legal_small': op_legal_small,
     'strop': lambda: op_strop(1),
     'force_spectral': lambda: (op_force(1), op_spectral(1)),
     'rect': lambda: op_rect(1),
@@ -394,6 +408,16 @@ def probe_bad_netlists():
         except AssertionError:
             out.append('rejected')
     return out
+
+
+def _probe_strip(strip):
+    """a hard module whose rectangles overlap on a thin strip, as the first thing done after the history"""
+    from frame.netlist.netlist import Netlist
+    try:
+        Netlist({'Modules': {'H': {'hard': True, 'rectangles': [[1, 1, 2, 2], [3 - strip, 1, 2, 2]]}}, 'Nets': []})
+        return 'accepted'
+    except AssertionError:
+        return 'rejected'
 
 
 def probe_die():
@@ -503,7 +527,10 @@ def probe_legal():
     from frame.netlist.netlist import Netlist
     doc = {'Modules': {'M0': {'area': 4, 'rectangles': [[2, 2, 2, 2], [2, 3.5, 1, 1]]},
                        'M1': {'hard': True, 'rectangles': [[6, 2, 2, 1], [6.5, 3, 1, 1]]},
-                       'M2': {'fixed': True, 'rectangles': [[2, 6.5, 1, 1]]}}, 'Nets': [['M0', 'M1', 2], ['M1', 'M2']]}
+                       'M2': {'fixed': True, 'rectangles': [[2, 6.5, 1, 1]]},
+                       # (an area that its rectangle misses by 5e-7: met within the tolerance of a design of this size)
+                       'M3': {'area': 0.25, 'rectangles': [[6.5, 6.5, 0.5, 0.499999]]}},
+           'Nets': [['M0', 'M1', 2], ['M1', 'M2'], ['M2', 'M3']]}
     n = Netlist(doc)
     with quiet():
         ml, al, xl, yl, wl, hl, hyper, og = lf.netlist_to_utils(n)
@@ -571,7 +598,8 @@ def probe_writers():
 PROBES = {
     'netlist': probe_netlist, 'netlist_dec': probe_netlist_dec, 'bad_netlists': probe_bad_netlists, 'die': probe_die,
     'bad_dies': probe_bad_dies, 'alloc': probe_alloc, 'initial_alloc': probe_initial_alloc, 'pb': probe_pb, 'legal': probe_legal,
-    'bad_allocs': probe_bad_allocs, 'strop': probe_strop, 'force_spectral': probe_force_spectral, 'rect': probe_rect, 'writers': probe_writers, 'yaml_text': probe_yaml_text,
+    'bad_allocs': probe_bad_allocs, 'strip_1e-2': lambda: _probe_strip(1e-2), 'strip_1e-4': lambda: _probe_strip(1e-4),
+    'strip_1e-6': lambda: _probe_strip(1e-6), 'strop': probe_strop, 'force_spectral': probe_force_spectral, 'rect': probe_rect, 'writers': probe_writers, 'yaml_text': probe_yaml_text,
 }
 
 
